@@ -19,9 +19,10 @@ type c15Msg struct {
 }
 
 type c15State struct {
-	Name string
-	W    *verifWorld
-	R    int // which principal is the receiver under test
+	Name  string
+	W     *verifWorld
+	R     int    // which principal is the receiver under test
+	Bound uint32 // reference: the peer instance the receiver is bound to according to the history (0: none yet)
 }
 
 // rewrite the instance tags of a genuine v3 message (encoded form) or fragment
@@ -52,12 +53,17 @@ func c15States(seed int64) (states []c15State, genuine map[string][2][]byte) {
 	for _, p := range w.P {
 		p.C.GetOurInstanceTag()
 	}
+	gotEncoded := [2]bool{} // the party has received a well-formed OTR-encoded message from its peer
 	snap := func(name string) {
 		for r := 0; r < 2; r++ {
 			c := w.clone()
 			c.P[0].Rec.take()
 			c.P[1].Rec.take()
-			states = append(states, c15State{Name: fmt.Sprintf("%s/R=%c", name, 'A'+r), W: c, R: r})
+			st := c15State{Name: fmt.Sprintf("%s/R=%c", name, 'A'+r), W: c, R: r}
+			if gotEncoded[r] {
+				st.Bound = w.P[1-r].C.ourInstanceTag // a binding, once learnt, lasts for the life of the conversation
+			}
+			states = append(states, st)
 		}
 	}
 	note := func(from int, out [][]byte) {
@@ -77,6 +83,9 @@ func c15States(seed int64) (states []c15State, genuine map[string][2][]byte) {
 		for to := 0; to < 2; to++ {
 			if len(w.Q[to]) > 0 {
 				m := w.pop(to)
+				if bytes.HasPrefix(m, []byte("?OTR:")) {
+					gotEncoded[to] = true
+				}
 				r := w.P[to].Receive(m)
 				note(to, r.Out)
 				w.push(to, r.Out)
@@ -173,13 +182,16 @@ func c15Desc(x c15Msg) string { return fmt.Sprintf("%s[%x|%x]", x.Kind, x.Snd, x
 func c15RunSeq(st c15State, seq []c15Msg, seed int64) (fs []verifFinding, classes []string) {
 	w := st.W.clone()
 	R := w.P[st.R]
-	model := c15Model{Own: R.C.ourInstanceTag, Bound: R.C.theirInstanceTag}
+	model := c15Model{Own: R.C.ourInstanceTag, Bound: st.Bound}
 	bad := func(sig, format string, a ...interface{}) {
 		var ds []string
 		for _, x := range seq {
 			ds = append(ds, c15Desc(x))
 		}
 		fs = append(fs, verifFinding{"C15:" + sig, fmt.Sprintf("state %s, sequence %v: ", st.Name, ds) + fmt.Sprintf(format, a...)})
+	}
+	if R.C.theirInstanceTag != st.Bound {
+		bad("binding-differs-from-history", "the conversation is bound to peer instance %#x, its history says %#x", R.C.theirInstanceTag, st.Bound)
 	}
 	for _, x := range seq {
 		class := model.classify(x)
@@ -388,7 +400,7 @@ func init() {
 // c15Diff: hostile message h, then the genuine continuation, compared with the continuation alone
 func c15Diff(st c15State, h c15Msg, base string) (*verifFinding, bool) {
 	w := st.W.clone()
-	m := c15Model{Own: w.P[st.R].C.ourInstanceTag, Bound: w.P[st.R].C.theirInstanceTag}
+	m := c15Model{Own: w.P[st.R].C.ourInstanceTag, Bound: st.Bound}
 	cl := m.classify(h)
 	if cl == "ours" || cl == "unbound-foreign-receiver" {
 		return nil, false
